@@ -354,6 +354,9 @@ class ModuleContext(TreeContextMixin, ValueContext):
 
 
 class NamespaceContext(TreeContextMixin, ValueContext):
+    # A namespace package is a directory, there is no code.
+    code_lines = None
+
     def get_filters(self, until_position=None, origin_scope=None):
         return self._value.get_filters()
 
